@@ -268,23 +268,33 @@ func genC10Cmd(t *rapid.T) c10CmdCase {
 var c10CLICmds = []struct {
 	args      []string
 	log, book bool
+	empty     bool // prints nothing on readable input (only the exit status tells): not used by the output-sink checks
 }{
-	{[]string{"reg", "--no-color"}, true, true},
-	{[]string{"reg", "--use-old-reg-reporter"}, true, true},
-	{[]string{"bal"}, true, true},
-	{[]string{"bal", "-s", "x"}, true, true},
-	{[]string{"csv", "log"}, true, false},
-	{[]string{"csv", "database"}, false, true},
-	{[]string{"csv", "database-resolved"}, false, true},
-	{[]string{"print"}, true, false},
-	{[]string{"summary", "2021/01/01"}, true, true},
-	{[]string{"report", "totals"}, true, true},
-	{[]string{"report", "quantity"}, true, false},
-	{[]string{"report", "unresolved"}, true, true},
-	{[]string{"report", "element-total", "x"}, false, true},
-	{[]string{"stats"}, true, true},
-	{[]string{"lint", "@LOG@"}, true, false},
-	{[]string{"lint", "@BOOK@"}, false, true},
+	{[]string{"reg", "--no-color"}, true, true, false},
+	{[]string{"reg", "--use-old-reg-reporter"}, true, true, false},
+	{[]string{"bal"}, true, true, false},
+	{[]string{"bal", "-s", "x"}, true, true, false},
+	{[]string{"csv", "log"}, true, false, false},
+	{[]string{"csv", "database"}, false, true, false},
+	{[]string{"csv", "database-resolved"}, false, true, false},
+	{[]string{"print"}, true, false, false},
+	{[]string{"summary", "2021/01/01"}, true, true, false},
+	{[]string{"report", "totals"}, true, true, false},
+	{[]string{"report", "quantity"}, true, false, false},
+	{[]string{"report", "unresolved"}, true, true, false},
+	{[]string{"report", "element-total", "x"}, false, true, false},
+	{[]string{"stats"}, true, true, false},
+	{[]string{"lint", "@LOG@"}, true, false, false},
+	{[]string{"lint", "@BOOK@"}, false, true, false},
+	// more positional arguments than the command documents (they do not make an unreadable first file readable)
+	{[]string{"lint", "@LOG@", "@BOOK@"}, true, false, false},
+	{[]string{"lint", "@BOOK@", "@LOG@"}, false, true, false},
+	{[]string{"summary", "2021/01/01", "2030/05/05"}, true, true, false},
+	// a period that holds no record: both files must still be read completely
+	{[]string{"reg", "-b", "2031/01/01"}, true, true, true},
+	{[]string{"bal", "-e", "1999/01/01"}, true, true, true},
+	{[]string{"reg", "-s", "x", "-b", "2031/01/01"}, true, true, true},
+	{[]string{"csv", "log", "-e", "1999/01/01"}, true, false, true},
 }
 
 var c10Shapes = []string{"dir", "long-entry", "long-comment", "long-note", "long-heading"}
@@ -681,6 +691,9 @@ func TestVerifC10Parser(t *testing.T) {
 }
 
 func TestVerifC10Commands(t *testing.T) {
+	if !vAPIGuard(t, "c10.commands") {
+		return
+	}
 	vRapid(t, "C10", "c10.commands",
 		"every exported command function taking readers (22 variants of Register, Balance, CSV*, Print, Summary, Report*, Lint) with the fault on its log or book reader at offsets {0, len, 4-12 drawn positions}; must return an error; control with healthy chunked readers must succeed",
 		vBudget(4000, 64000), genC10Cmd, checkC10Cmd)
